@@ -28,6 +28,11 @@ ASSUME = [
     "(`@17:stop:...`: the update is parked in front of its send, i.e. it reaches the server after the Stop); the model is "
     "finer (any ptick/itick between any two ticks). A reply held back by the server while other calls run, and goroutine "
     "preemption inside a marker-free region, are not exercised; the Go race detector is not part of this check",
+    "one API program counter: API calls (StartSession, StopSession, Stop()) overlapping each other are modelled only as "
+    "`the second has no effect` (theorem overlapping_call_has_no_effect), which the code guarantees for a StopSession "
+    "overlapping the StartSession / another StopSession of the SAME session (refused; nested by the harness at the markers "
+    "1-6: `@m:stop:<sid>`). Overlapping calls of DIFFERENT sessions, and Stop() overlapping a StartSession, are executed "
+    "by the code and are neither modelled nor driven",
     "the main model has no time: `retry` retries every record of the map (component acct configures 1 ns delays so that "
     "all are due). Time is covered by component acctretry only for single-thread schedules (no crash, no interleaving); "
     "the interim ticker is one due session per `interim` op (the loop over several due sessions in one pass is not modelled); "
